@@ -511,6 +511,20 @@ def c19(prop, tier):
                         outside=["the in-circuit GKR verifier (sum-check with hash-derived challenges over a 254-bit field)", "the proving hint and the sum-check prover", "parallel execution of the solving hint's chunks (jobs run sequentially in the model)", "more than 4 instances / 2 dependencies / one dependent wire", "wire permutations other than the identity (API-built circuits are already sorted)"])
 
 
+def c14(prop, tier):
+    import ecs
+    ev, ei, ec = ecs.run(prop, tier, collect=True)
+    jobs = [Job("uints", "./std/math/uints", ["prelude_sym.go", "c14_uints.go"], {"PKGNAME": "uints"})]
+    return run_property(prop, tier, jobs,
+                        title="C14: (E-CS part, see coverage.ecs) cmp / bounded comparator / selector / bitslice programs over GF(47), SOUND + HONEST; (E-SSA part) the table-free word operations of uints.BinaryField - ValueOf, ToValue, Rshift, Lrot, Add, Pack/Unpack - against a frontend.API stand-in over symbolic 64-bit integers, in an honest reading (hints have their meaning; every emitted assertion / range check holds; result is the mathematical one) and an adversarial reading (hint outputs arbitrary, constraints are what the prover must satisfy; the result is still the mathematical one): U32 every shift / rotation 0..31 and sums of 2..3 words, U64 shifts / rotations for 14 counts, for all word values.",
+                        design_ref="DESIGN.md §3 C14",
+                        assumptions=["values on the word paths stay below 2^40 (adversarial hint outputs are assumed below 2^40: larger field elements are excluded by the gadgets' own range checks), so 64-bit machine arithmetic is the field's",
+                                     "bytes of an input word are bytes (established by ValueOf / the lookup tables that produce them)"] + list(ec.get("ecs_assumptions", [])),
+                        outside=["the table-based word operations And / Or / Xor / Not (2^16-row lookup tables over a committed challenge)", "sums of U64 words (exceed the 64-bit stand-in)", "other fields than GF(47) for the E-CS part"],
+                        expect_reach={"verifHarness_u32ShiftRotate": ["u32-shift-rotate"], "verifHarness_u32Add": ["u32-add"], "verifHarness_u32ValueOf": ["u32-valueof"], "verifHarness_u64ShiftRotate": ["u64-shift-rotate"]},
+                        extra_violations=ev, extra_inconclusive=ei, extra_coverage={k: v for k, v in ec.items() if k == "ecs"})
+
+
 def c18(prop, tier):
     curves = ["bn254"] if tier == "quick" else CURVES
     jobs = []
